@@ -15,9 +15,13 @@
 (* functools.partial, an instance with __call__, a bound method.           *)
 (* Deviation switch AnyCallable (TRUE = intended): FALSE accepts only      *)
 (* functions and methods (routines).                                       *)
+(* `method` = None IS the default built-in: the caller's options reach it  *)
+(* exactly as when the default is named.  Deviation switch                 *)
+(* DefaultTakesOptions[f] (TRUE = intended): FALSE builds the default      *)
+(* method without the caller's options.                                    *)
 (***************************************************************************)
 EXTENDS Naturals, Sequences, FiniteSets, TLC
-CONSTANTS LowerFirst, AnyCallable
+CONSTANTS LowerFirst, AnyCallable, DefaultTakesOptions
 RF == {"newton", "broyden1", "broyden2", "linearmixing"}
 Functionals == {"solve", "symeig", "rootfinder", "equilibrium", "minimize", "solve_ivp", "quad", "mcquad", "interp1d", "squad"}
 Names == [f \in Functionals |->
@@ -53,16 +57,19 @@ Resolve(f, cls, nm, ck) ==
      [] cls = "callable" -> IF AnyCallable \/ ck \in Routines THEN "callable" ELSE "raise"
      [] OTHER -> "raise"
 
-VARIABLES f, cls, nm, ck, outcome
-vars == <<f, cls, nm, ck, outcome>>
+\* do the caller's method-specific options reach the method that runs?
+OptionsReach(f, cls) == IF cls = "none" THEN DefaultTakesOptions[f] ELSE TRUE
+VARIABLES f, cls, nm, ck, outcome, opts
+vars == <<f, cls, nm, ck, outcome, opts>>
 Init == /\ f \in Functionals /\ cls \in ArgClasses /\ nm \in Names[f]
         /\ (cls \notin {"exact", "mixedcase"} => nm = CHOOSE x \in Names[f] : TRUE)     \* the name only matters for these classes
         /\ ck \in CallableKinds /\ (cls # "callable" => ck = "function")               \* the kind only matters for callables
-        /\ outcome = Resolve(f, cls, nm, ck)
+        /\ outcome = Resolve(f, cls, nm, ck) /\ opts = OptionsReach(f, cls)
 Next == UNCHANGED vars
 Spec == Init /\ [][Next]_vars
 CaseInsensitive == cls = "mixedcase" => outcome = nm
 UnknownRejected == cls \in {"unknown", "noncallable"} => outcome = "raise"
 CallableAccepted == cls = "callable" => outcome = "callable"
 DefaultIsBuiltIn == cls = "none" => outcome \in Names[f]
+OptionsDelivered == outcome # "raise" => opts
 =============================================================================
